@@ -108,7 +108,7 @@ class Rec:
 
 def make(rng=None, kind="3B2", stream="ap", sites=None, n=384, encoding="shank", gains=None, fs=None, ns=1000,
          aimax=None, maxint=None, explicit_maxint=None, nsync=1, extra=None, tilde=True, claim_ns=None, raw=None,
-         content="random", shank_key=None):
+         content="random", shank_key=None, port_slot=(2, 3)):
     """build the ground truth + meta text of one imec recording"""
     rng = rng or np.random.default_rng(0)
     r = Rec()
@@ -151,8 +151,8 @@ def make(rng=None, kind="3B2", stream="ap", sites=None, n=384, encoding="shank",
         d["imDatPrb_sn"] = 18005116811
         d["imDatPrb_pn"] = "PRB_1_4_0480_1"
         if kind != "3B1":
-            d["imDatPrb_port"] = 2
-            d["imDatPrb_slot"] = 3
+            d["imDatPrb_port"] = port_slot[0]       # OneBox ports are numbered from 0
+            d["imDatPrb_slot"] = port_slot[1]
     if extra and "imDatPrb_type" in extra:
         d["imDatPrb_type"] = extra.pop("imDatPrb_type")
     if np2 or explicit_maxint or (explicit_maxint is None and maxint != 512):
@@ -241,8 +241,23 @@ def make_raw(rng, ns, nc, nsync=1, content="random", maxint=512):
     return np.ascontiguousarray(raw)
 
 
-def make_nidq(rng, mn=0, ma=0, xa=1, dw=1, mn_gain=200, ma_gain=1, aimax=5, fs=30003.0003, ns=1000, raw=None, tilde=True):
+def make_nidq(rng, mn=0, ma=0, xa=1, dw=1, mn_gain=200, ma_gain=1, aimax=5, fs=30003.0003, ns=1000, raw=None, tilde=True, acq=None):
+    """acq: None = every acquired channel is saved; "random" = in half of the files more MN / MA / XA channels were acquired than saved
+    (the file and every sns* field describe the saved ones, acqMnMaXaDw the acquired ones)"""
     r = Rec()
+    acq_counts = (mn, ma, xa, dw)
+    subset = "all"
+    if acq == "random" and rng.random() < 0.5:
+        extra = [int(rng.integers(0, 3)) for _ in range(3)]
+        if sum(extra) == 0:
+            extra[0] = 2
+        acq_counts = (mn + extra[0], ma + extra[1], xa + extra[2], dw)
+        # saved = the LAST mn of the acquired MN channels, ..., so that dropped channels sit ahead of the saved ones
+        idx, o = [], 0
+        for a, k in zip(acq_counts, (mn, ma, xa, dw)):
+            idx += list(range(o + a - k, o + a))
+            o += a
+        subset = ",".join(str(i) for i in idx) if idx else "all"
     r.kind, r.stream = "nidq", "nidq"
     r.mn, r.ma, r.xa, r.dw = mn, ma, xa, dw
     r.nc = mn + ma + xa + dw
@@ -251,14 +266,14 @@ def make_nidq(rng, mn=0, ma=0, xa=1, dw=1, mn_gain=200, ma_gain=1, aimax=5, fs=3
     r.aimax, r.maxint = aimax, 32768
     t = "~" if tilde else ""
     d = {
-        "acqMnMaXaDw": f"{mn},{ma},{xa},{dw}", "appVersion": "20190327",
+        "acqMnMaXaDw": ",".join(str(v) for v in acq_counts), "appVersion": "20190327",
         "fileName": "D:/data/run_g0_t0.nidq.bin", "fileSHA1": "0" * 40,
         "fileSizeBytes": ns * r.nc * 2, "fileTimeSecs": fmt_num(ns / fs), "firstSample": 1738164, "gateMode": "Immediate",
         "nSavedChans": r.nc, "niAiRangeMax": fmt_num(aimax), "niAiRangeMin": "-" + fmt_num(aimax),
         "niAiTermination": "Default", "niClockSource": "PXI1Slot2_1ch_Int : 30003.000300", "niDev1": "PXI1Slot2",
         "niMAChans1": "", "niMAGain": fmt_num(ma_gain), "niMNChans1": "", "niMNGain": fmt_num(mn_gain), "niMuxFactor": 1,
         "niSampRate": fmt_num(fs), "niXAChans1": "0", "niXDBytes1": 1, "niXDChans1": "0:7",
-        "snsMnMaXaDw": f"{mn},{ma},{xa},{dw}", "snsSaveChanSubset": "all", "syncNiChan": 3, "syncNiThresh": "1.1",
+        "snsMnMaXaDw": f"{mn},{ma},{xa},{dw}", "snsSaveChanSubset": subset, "syncNiChan": 3, "syncNiThresh": "1.1",
         "trigMode": "Immediate", "typeImEnabled": 2, "typeNiEnabled": 1, "typeThis": "nidq", "userNotes": "",
         t + "snsChanMap": f"({mn},{ma},1,{xa},{dw})" + "".join(f"(XA{i};{i}:{i})" for i in range(xa)) + "(XD0;1:1)",
         t + "snsShankMap": "(1,2,0)",
